@@ -37,7 +37,7 @@ func init() {
 			"an execution is non-trivial when it contains a Close followed by at least one more operation, or a constructor probe of an out-of-range level",
 		Assumptions: []string{"compress/flate, compress/gzip, compress/zlib of the Go toolchain are the reference for which call returns an error",
 			"the statement, not the twin, is the reference for 'a repeated Close emits nothing more' (compress/zlib itself re-emits its trailer)"},
-		Quick:    TierSpec{MaxDev: -1, Merge: true, Shards: 4, ShardDepth: 2, BudgetS: 100},
+		Quick:    TierSpec{MaxDev: -1, Merge: true, Shards: 4, ShardDepth: 2, BudgetS: 600},
 		Thorough: TierSpec{MaxDev: -1, Merge: true, Shards: 8, ShardDepth: 3, BudgetS: 1500},
 		Harness:  c16Harness,
 	})
